@@ -552,6 +552,14 @@ impl Interp {
                     )],
                 ])
             }
+            Rel::DeepNever => {
+                // never produces an answer
+                if self.set_mode {
+                    Goal::Fail
+                } else {
+                    return Err(InterpErr::Infinite);
+                }
+            }
             Rel::Diverge => {
                 if self.set_mode {
                     Goal::Fail
